@@ -358,6 +358,10 @@ func TestC42(t *testing.T) {
 			scs[i].MinB, scs[i].MaxB, scs[i].Budget = 1, 2, 50*time.Second
 			if thorough {
 				scs[i].MinB, scs[i].MaxB, scs[i].Budget = 2, 3, 8*time.Minute
+				if strings.Contains(scs[i].Name, "-w16") {
+					// 16 decode workers: ≤1 deviation is what 8 CPU-minutes cover (bound 2 is attempted, not required)
+					scs[i].MinB = 1
+				}
 			}
 		}
 		return scs
